@@ -93,6 +93,14 @@ def run_case(case):
             S_perm = float(make_indicator(case).do(F[perm]))
             S_scaled = float(make_indicator({**case, "norm": "none"}).do(F * 2.0)) if case["norm"] == "none" else None
             S_shift = float(make_indicator({**case, "norm": "none"}).do(F + 8.0)) if case["norm"] == "none" else None
+            # the same indicator object, called again with the same array object after its contents have changed
+            ind2 = make_indicator(case); buf = F.copy()
+            S_first = float(ind2.do(buf))
+            buf[:] = buf[perm][::-1] * (2.0 if case["norm"] == "none" else 1.0)
+            if len(buf) > 2:
+                buf[0] = buf[-1]                                       # and one point overwritten by another
+            S_reused = float(ind2.do(buf))
+            S_fresh = float(make_indicator(case).do(buf.copy()))
     finally:
         sp.pdist = orig
     from scipy.spatial.distance import squareform
@@ -100,6 +108,7 @@ def run_case(case):
     nadir = None if ind.nadir is None else np.asarray(ind.nadir, dtype=float).tolist()
     return {"S": float(S).hex(), "S_perm": float(S_perm).hex(), "S_scaled": None if S_scaled is None else float(S_scaled).hex(),
             "S_shift": None if S_shift is None else float(S_shift).hex(), "frame": bool(np.array_equal(F, F0)),
+            "S_first": float(S_first).hex(), "S_reused": float(S_reused).hex(), "S_fresh": float(S_fresh).hex(),
             "ideal": ideal, "nadir": nadir}
 
 
@@ -134,7 +143,7 @@ class C20(Check):
     RULE = ("SpacingIndicator(metric, pf, zero_to_one, ideal, nadir).do(F) on point sets of 2..40 points (quick) / 2..150 (thorough), 1..5 objectives, grid-valued, continuous, "
             "with duplicates, equally spaced, with ranges that are tiny relative to the objective's magnitude; metrics cityblock / euclidean / sqeuclidean / chebyshev (pdist modelled) and canberra (distance matrix as oracle); normalisation "
             "off / ideal+nadir / derived from a Pareto front / mixed, with ideal = nadir in one dimension; compared bit-for-bit with the model (normalisation, distance matrix, "
-            "second-smallest entry, NumPy pairwise summation, sqrt); independent formula, permutation / translation / scaling checks on the implementation; "
+            "second-smallest entry, NumPy pairwise summation, sqrt); independent formula, permutation / translation / scaling checks on the implementation; one indicator object called twice with the same array object whose contents changed in between; "
             "non-trivial = at least 3 points; distinct by hash")
     ASSUMPTIONS = ["theorems are about the radicand in exact rational arithmetic and about an abstract summation that is extensionally the mathematical sum; NumPy's pairwise "
                    "order only matters for rounding and is covered by the bit-exact runs",
@@ -163,6 +172,11 @@ class C20(Check):
             return "C20-formula: spacing %r differs from the RMS deviation of nearest-neighbour distances %r" % (S, ref)
         if case["style"] == "equispaced" and case["norm"] == "none" and case["metric"] in MODELLED and S > 1e-9:
             return "C20-equispaced: equally spaced points give spacing %r" % S
+        if float.fromhex(obs["S_first"]) != S and not (S != S):
+            return "C20-repeat: a second indicator object gives %r for the same points (first %r)" % (float.fromhex(obs["S_first"]), S)
+        if obs["S_reused"] != obs["S_fresh"]:
+            return "C20-reuse: the same indicator object called again with the same array object (contents changed in place) returns %r, a fresh indicator %r" % (
+                float.fromhex(obs["S_reused"]), float.fromhex(obs["S_fresh"]))
         Sp = float.fromhex(obs["S_perm"])
         if abs(Sp - S) > 1e-9 * max(1.0, abs(S)):
             return "C20-permutation: reordering the points changed the value from %r to %r" % (S, Sp)
